@@ -245,7 +245,7 @@ def oracle_analyze(ctx, rng, n):
             # independent record of every assembly's nominal peak at the requested location: the pin row (coolant, clad, fuel
             # temperatures of one pin at one height) with the largest value so far, first occurrence
             for a in r.assemblies:
-                tp = a.pin_temp_array
+                tp = a.pin_temp_array if where != 'coolant' else None
                 if tp is None:
                     continue
                 col = _IDX[where] - 1
